@@ -31,7 +31,10 @@ def extract(path):
     first_site = {}
     n_events = 0
     for line in open(path):
-        r = json.loads(line)
+        try:
+            r = json.loads(line)
+        except Exception:
+            continue
         n_events += 1
         key = (r["run"], r["role"])
         lock, mode = canon(r["l"]), r["m"]
@@ -59,6 +62,35 @@ def extract(path):
             if held[key]:
                 cur[key].append(("acq", lock, mode))
                 cur[key].append(("rel", lock, mode))
+    # collapse immediate repetitions of the same momentary acquisition (hooks before and after one map operation)
+    def collapse(ops):
+        res = []
+        for o in ops:
+            res.append(o)
+            while len(res) >= 4 and res[-4][0] == "acq" and res[-3][0] == "rel" and res[-2][0] == "acq" and res[-1][0] == "rel" \
+                    and res[-4][1:] == res[-3][1:] == res[-2][1:] == res[-1][1:]:
+                del res[-2:]
+        # collapse repeated identical blocks (several evictions in one sweep)
+        changed = True
+        while changed:
+            changed = False
+            n = len(res)
+            for size in range(2, n // 2 + 1):
+                for start in range(0, n - 2 * size + 1):
+                    if res[start:start + size] == res[start + size:start + 2 * size]:
+                        del res[start + size:start + 2 * size]
+                        changed = True
+                        break
+                if changed:
+                    break
+        return tuple(res)
+    merged = collections.Counter()
+    sites = {}
+    for (role, ops), n in programs.items():
+        key = (role, collapse(ops))
+        merged[key] += n
+        sites.setdefault(key, first_site[(role, ops)])
+    programs, first_site = merged, sites
     out = []
     for (role, ops), n in programs.items():
         acqs = [o for o in ops if o[0] in ("acq", "send", "recv")]
